@@ -99,12 +99,14 @@ func closedProblem(s *ast.Schema) string {
 		}
 	}
 	// relations: exactly the ones implied by the definitions
-	wantP, wantI := map[string]map[string]bool{}, map[string]map[string]bool{}
-	add := func(m map[string]map[string]bool, k, v string) {
+	// (with the multiplicity the definitions give: `union U = O | O` and `implements I & I` are accepted
+	// by the loader, which enforces no uniqueness of members, and list their member as often as written)
+	wantP, wantI := map[string]map[string]int{}, map[string]map[string]int{}
+	add := func(m map[string]map[string]int, k, v string) {
 		if m[k] == nil {
-			m[k] = map[string]bool{}
+			m[k] = map[string]int{}
 		}
-		m[k][v] = true
+		m[k][v]++
 	}
 	for k, d := range s.Types {
 		switch d.Kind {
@@ -123,9 +125,9 @@ func closedProblem(s *ast.Schema) string {
 			}
 		}
 	}
-	cmp := func(name string, got map[string][]*ast.Definition, want map[string]map[string]bool) string {
+	cmp := func(name string, got map[string][]*ast.Definition, want map[string]map[string]int) string {
 		for k, l := range got {
-			seen := map[string]bool{}
+			seen := map[string]int{}
 			for _, d := range l {
 				if d == nil {
 					return name + "[" + k + "] has a nil entry"
@@ -133,13 +135,13 @@ func closedProblem(s *ast.Schema) string {
 				if s.Types[d.Name] != d {
 					return name + "[" + k + "] entry " + d.Name + " is not the schema's own definition"
 				}
-				if !want[k][d.Name] {
+				if want[k][d.Name] == 0 {
 					return name + "[" + k + "] has " + d.Name + " which the definitions do not imply"
 				}
-				if seen[d.Name] {
-					return name + "[" + k + "] lists " + d.Name + " twice"
+				seen[d.Name]++
+				if seen[d.Name] > want[k][d.Name] {
+					return name + "[" + k + "] lists " + d.Name + " more often than the definitions do"
 				}
-				seen[d.Name] = true
 			}
 		}
 		for k, m := range want {
@@ -337,6 +339,11 @@ func runC07(c *core.Ctx) {
 	for _, sdl := range hierarchyMatrix() {
 		cases = append(cases, cs{[]string{sdl}, "", ""})
 	}
+	sss := schemaSmallScope()
+	for _, sdl := range sss {
+		cases = append(cases, cs{[]string{sdl}, "", ""})
+	}
+	c.Count("small_scope_schemas", int64(len(sss)))
 	var nOK, nErr int64
 	faultHits := map[string]int64{}
 	c.Pool.ParFor(len(cases), func(w, i int) {
@@ -381,4 +388,70 @@ func runC07(c *core.Ctx) {
 	c.Programs = int64(len(cases))
 	c.Sample(map[string]interface{}{"sources": cases[0].srcs})
 	c.Sample(map[string]interface{}{"fault": cases[1].fault, "sources": cases[1].srcs})
+}
+
+// schemaSmallScope: complete small cross products over one base type system.
+// (1) every kind of named type (scalar, object, interface, union, enum, input object, built-in scalar,
+// introspection type, undefined) in every wrapping (T, T!, [T], [T!], [T]!, [T!]!, [[T]], [[T!]!]!) at
+// every place a type reference can stand (object, interface and input fields; arguments of object
+// fields, interface fields and directives), and unwrapped at every place a type name can stand
+// (union member, implemented interface of an object and of an interface, each root operation type,
+// each kind of extension);
+// (2) every shape of directive definition (no argument, required, optional, required with default,
+// repeatable, not for this location) applied in every form (bare, with its argument, with an unknown
+// argument, with the argument twice, with a value of the wrong type, null, twice in a row) at each of
+// the eleven type-system locations.
+func schemaSmallScope() []string {
+	base := "scalar S type O { a: Int } interface I { a: Int } union U = O enum E { A } input In { a: Int } type Query { q: Int } "
+	targets := []string{"S", "O", "I", "U", "E", "In", "Int", "ID", "__Type", "Nope"}
+	wrap := []func(string) string{
+		func(t string) string { return t }, func(t string) string { return t + "!" }, func(t string) string { return "[" + t + "]" },
+		func(t string) string { return "[" + t + "!]" }, func(t string) string { return "[" + t + "]!" }, func(t string) string { return "[" + t + "!]!" },
+		func(t string) string { return "[[" + t + "]]" }, func(t string) string { return "[[" + t + "!]!]!" },
+	}
+	refPlaces := []string{
+		"type X { f: %s }", "interface X { f: %s }", "input X { f: %s }", "type X { f(a: %s): Int }", "interface X { f(a: %s): Int }",
+		"directive @d(a: %s) on FIELD", "extend type O { z: %s }", "extend input In { z: %s }", "extend type Query { z(a: %s): Int }",
+		"input X { f: %s = null }", "type X { f(a: %s = null): Int }",
+	}
+	namePlaces := []string{
+		"union X = %s", "union X = O | %s", "type X implements %s { a: Int }", "interface X implements %s { a: Int }", "type X implements I & %s { a: Int }",
+		"schema { query: %s }", "schema { query: Query mutation: %s }", "schema { query: Query subscription: %s }", "extend schema { mutation: %s }",
+		"extend type %s { z: Int }", "extend interface %s { z: Int }", "extend union %s = O", "extend enum %s { Z }", "extend input %s { z: Int }", "extend scalar %s @deprecated",
+		"type %s { z: Int }", "scalar %s", "enum %s { Z }", "directive @%s on FIELD",
+	}
+	var out []string
+	for _, p := range refPlaces {
+		for _, t := range targets {
+			for _, w := range wrap {
+				out = append(out, base+strings.Replace(p, "%s", w(t), 1))
+			}
+		}
+	}
+	for _, p := range namePlaces {
+		for _, t := range append(targets, "Query", "X", "String") {
+			out = append(out, base+strings.Replace(p, "%s", t, 1))
+		}
+	}
+	allLoc := "SCHEMA | SCALAR | OBJECT | FIELD_DEFINITION | ARGUMENT_DEFINITION | INTERFACE | UNION | ENUM | ENUM_VALUE | INPUT_OBJECT | INPUT_FIELD_DEFINITION"
+	defs := []string{
+		"directive @x on " + allLoc, "directive @x(a: Int!) on " + allLoc, "directive @x(a: Int) on " + allLoc, "directive @x(a: Int! = 1) on " + allLoc,
+		"directive @x(a: Int) repeatable on " + allLoc, "directive @x(a: Int) on FIELD", "directive @x(a: In, b: [E!]) on " + allLoc, "",
+	}
+	forms := []string{"@x", "@x(a: 1)", "@x(b: 1)", "@x(a: 1, a: 2)", `@x(a: "s")`, "@x(a: null)", "@x @x", "@x(a: 1) @x(a: 2)", "@x(a: {a: 1}, b: [A])", "@x(a: $v)", "@oneOf", "@oneOf(a: 1)", `@deprecated(reason: "r", x: 1)`, "@skip(if: true)"}
+	sites := []string{
+		"schema %s { query: Query } type Query { q: Int }", "scalar T %s type Query { q: Int }", "type Query %s { q: Int }", "type Query { q: Int %s }",
+		"type Query { q(a: Int %s): Int }", "interface T %s { q: Int } type Query { q: Int }", "union T %s = Query type Query { q: Int }", "enum T %s { A } type Query { q: Int }",
+		"enum T { A %s } type Query { q: Int }", "input T %s { a: Int } type Query { q: Int }", "input T { a: Int %s } type Query { q: Int }",
+		"directive @y(a: Int %s) on FIELD type Query { q: Int }", "extend type Query %s type Query { q: Int }", "type Query { q: Int } extend schema %s",
+		"input T { a: Int! %s } type Query { q: Int }", "type Query { q(a: Int! %s): Int }",
+	}
+	for _, df := range defs {
+		for _, f := range forms {
+			for _, st := range sites {
+				out = append(out, "input In { a: Int } enum E { A } "+df+" "+strings.Replace(st, "%s", f, 1))
+			}
+		}
+	}
+	return out
 }
